@@ -43,7 +43,8 @@ GEN = ['gen_uset_erase.json', 'gen_umap_erase.json', 'gen_ummap_erase.json', 'ge
        'gen_mapat.json', 'gen_seteqr.json', 'gen_umapcreate.json', 'gen_setcreate.json',
        'gen_setnodehint.json', 'gen_msetnodehint.json', 'gen_usetnodehint.json', 'gen_umapnodehint.json', 'gen_vector.json', 'gen_mapioa.json',
        'gen_setcmp.json', 'gen_setcmpd.json', 'gen_mapcmp.json', 'gen_mapcmpd.json', 'gen_veccmp.json', 'gen_veccmpd.json',
-       'gen_setnodeins.json', 'gen_usetnodeins.json', 'gen_mapnodeins.json', 'gen_umapnodeins.json', 'gen_setmerge.json']
+       'gen_setnodeins.json', 'gen_usetnodeins.json', 'gen_mapnodeins.json', 'gen_umapnodeins.json', 'gen_setmerge.json',
+       'gen_mapassign.json', 'gen_umapassign.json', 'gen_setassign.json', 'gen_usetassign.json']
 INTERESTING = {'insh', 'emph', 'tryh', 'ioah', 'xinsh', 'xins', 'merge', 'err', 'erre', 'erra', 'err0', 'err1', 'eri', 'erf',
                'cmp', 'erif', 'ext', 'exti', 'at', 'errv', 'erloop', 'ernx', 'xmut', 'mrgm', 'mrgt', 'tryr', 'findh', 'eqrh', 'insm', 'fill', 'fillv', 'rdump', 'mvca', 'cpca', 'movq', 'ctor', 'emp0', 'rsvu', 'rhs', 'insn', 'insrv', 'insself', 'atv', 'swap', 'mov', 'cpy'}
 
